@@ -441,6 +441,9 @@ func (m *Manager) acquireTasks(envId uid.ID, taskDescriptors Descriptors) (err e
 				for _, taskPtr := range runningTasksForThisDescriptor {
 					if _, ok := tasksAlreadyRunning[taskPtr]; ok {
 						continue
+					} else if !taskPtr.claim(descriptor.TaskRole) {
+						// another deployment request claimed it, or it is gone, since we filtered the roster
+						continue
 					} else { // task not claimed yet, we do so now
 						tasksAlreadyRunning[taskPtr] = descriptor
 						claimed = true
@@ -630,6 +633,10 @@ func (m *Manager) acquireTasks(envId uid.ID, taskDescriptors Descriptors) (err e
 		for taskPtr := range deployedTasks {
 			taskPtr.SetParent(nil)
 			deployedTaskIds = append(deployedTaskIds, taskPtr.taskId)
+		}
+		for taskPtr := range tasksAlreadyRunning {
+			// give back the running tasks we claimed for this environment
+			taskPtr.SetParent(nil)
 		}
 
 		err = TasksDeploymentError{
